@@ -59,8 +59,8 @@ class C03(InterpProp):
     DESIGN_REF = "DESIGN.md §7 C03"
     QUICK_N = 300
     THOROUGH_N = 12000
-    LEVEL_TEXT = 'PARTIAL. Coq theorem about the interpreter model: in EVERY tick, from any state and with any environment, a line outside alarm bodies whose threshold is still awaited in that tick is not started by that tick (unless completed or forced): only the threshold loop of visit starts a line. The oracle (still awaited) is tied to the code by a second theorem and stream: _is_awaiting_threshold holds an uncompleted, unforced thresholded line back EXACTLY while the clock of its scope (Block Time when the Block tag names a block, Scope Time otherwise; base units s / min / h) is below the threshold, for main flow and interrupt handlers alike; volume / CV base units are not covered. Promptness and the Wait clause are decided by the Coq monitor on the real interpreter with exact tick times.'
-    LEVEL_NOTE = "Theorems are about coq/model/Interp.v (stage A: no macros, injection, live edits, cancel/force). Tie: as for C05 -- tick-by-tick correspondence of the model with the real PInterpreter under scripted environments on every node's state fields, the interrupt map, the Block tag, scheduled commands and errors; the property's Coq monitor runs on the real observations. Clock stream: the real PInterpreter._is_awaiting_threshold is called on a real interpreter whose real tag objects (Base, Block, the timers of Scope Time and Block Time) are set to generated values around the threshold, with the node flags and _in_interrupt varied, and compared with the model's decision. No axioms."
+    LEVEL_TEXT = 'PARTIAL. Coq theorem about the interpreter model: in EVERY tick, from any state and with any environment, a line outside Alarm and Macro bodies whose threshold is still awaited in that tick is not started by that tick (unless completed or forced): only the threshold loop of visit starts a line. The oracle (still awaited) is tied to the code by a second theorem and stream: _is_awaiting_threshold holds an uncompleted, unforced thresholded line back EXACTLY while the clock of its scope (Block Time when the Block tag names a block, Scope Time otherwise; base units s / min / h) is below the threshold, for main flow and interrupt handlers alike; volume / CV base units are not covered. Promptness and the Wait clause are decided by the Coq monitor on the real interpreter with exact tick times.'
+    LEVEL_NOTE = "Theorems are about coq/model/Interp.v (with macros; injection, cancel / force and live edits are the subject of C14, C12 and C01). Tie: as for C05 -- tick-by-tick correspondence of the model with the real PInterpreter under scripted environments on every node's state fields, the interrupt map, the Block tag, scheduled commands and errors; the property's Coq monitor runs on the real observations. Clock stream: the real PInterpreter._is_awaiting_threshold is called on a real interpreter whose real tag objects (Base, Block, the timers of Scope Time and Block Time) are set to generated values around the threshold, with the node flags and _in_interrupt varied, and compared with the model's decision. No axioms."
     TECHNIQUE = 'Coq proof (per-node update relation closed under every frame transition of the interpreter model, lifted to ticks and runs) + function-level correspondence of the threshold decision with the real _is_awaiting_threshold + tick-by-tick correspondence with the real PInterpreter + Coq monitor on the real node states'
     RULE = '60% interpreter runs: methods and environments as for C05 (15% of the lines carry a threshold released at a random tick; waits of 0-2 s with tick increments 0.5-1 s); non-trivial = at least 10 ticks and three completed lines; 40% clock cases: base unit s / min / h, thresholds 0-30 base units, both clocks at the threshold, 0.01-1 s around it or anywhere up to twice the threshold, Block tag None / empty / a name, completed / forced / no-threshold 10% each, in-interrupt 50%; non-trivial = a thresholded uncompleted unforced line'
 
